@@ -113,6 +113,9 @@ class Model(ClockModel):
     def deadline(self, entry, notif):
         if notif[0] == 'delay':
             return entry + num(notif[1])
+        if notif[0] == 'named':        # one condition object used by several blocks
+            self.feat.add('shared_condition_object')
+            notif = self.prog['objs']['conds'][notif[1]]
         driven = atoms(notif) & {'flag', 'tcmp', 'tcmp2'}
         ctl_times = [t for t, _ in self.timeline]
         if driven and entry in ctl_times:
@@ -152,6 +155,43 @@ CTL_TIMES = [0.625, 1.125, 1.625, 2.375, 3.125, 4.625]
 
 
 @st.composite
+def reuse_programs(draw):
+    """One condition object (atom or connective) serves several until-blocks one after the other; in
+    between it fires unobserved and reverts."""
+    k = draw(st.sampled_from(['or', 'and', 'flag', 'tcmp']))
+    if k == 'or':
+        cond = ['or', ['flag', 0], ['flag', 1]]
+        on, off = [{'op': 'set_flag', 'i': draw(st.integers(0, 1)), 'v': True}], \
+                  [{'op': 'set_flag', 'i': 0, 'v': False}, {'op': 'set_flag', 'i': 1, 'v': False}]
+    elif k == 'and':
+        cond = ['and', ['flag', 0], ['not', ['flag', 1]]]
+        on, off = [{'op': 'set_flag', 'i': 0, 'v': True}], [{'op': 'set_flag', 'i': 0, 'v': False}]
+    elif k == 'flag':
+        cond = ['flag', 0]
+        on, off = [{'op': 'set_flag', 'i': 0, 'v': True}], [{'op': 'set_flag', 'i': 0, 'v': False}]
+    else:
+        cond = ['tcmp', 0, '>=', 2]
+        on, off = [{'op': 'tset', 'i': 0, 'v': 3}], [{'op': 'tset', 'i': 0, 'v': 0}]
+    times = sorted(draw(st.lists(st.sampled_from(CTL_TIMES), min_size=2, max_size=5, unique=True)))
+    ctl = []
+    for j, t in enumerate(times):
+        ctl.append({'op': 'at_eq', 't': t})
+        ctl += (on if j % 2 == 0 else off)
+    steps = []
+    for j in range(draw(st.integers(2, 4))):
+        body = [{'op': 'sleep', 'd': draw(st.sampled_from([0.25, 0.5, 1, 2]))} for _ in range(draw(st.integers(0, 2)))]
+        if draw(st.booleans()):
+            body.append({'op': 'eternity'})
+        steps.append({'op': 'until', 'notif': ['named', 0], 'children': [], 'body': body})
+        steps.append({'op': 'sleep', 'd': draw(st.sampled_from([0.25, 0.5, 1, 1.5]))})
+    hd = {'name': 'hd', 'steps': [{'op': 'sleep', 'd': 0.3125}]}
+    prog = {'start': 0, 'objs': {'flags': 2, 'tracked': [0, 0], 'conds': [cond]},
+            'roots': [{'name': 'ctl', 'steps': ctl},
+                      {'name': 'r0', 'steps': [{'op': 'scope', 'children': [hd, {'name': 'a1', 'steps': steps}], 'body': []}]}]}
+    return prog
+
+
+@st.composite
 def programs(draw, tier, connectives=False):
     big = tier == 'thorough'
     counter = [0]
@@ -181,9 +221,13 @@ def programs(draw, tier, connectives=False):
             return ['instant'] if draw(st.integers(0, 3)) == 0 else ['eternity']
         return ['tcmp2', 0, draw(st.sampled_from(sorted(OPS))), 1]
 
+    named = []
+
     def notif():
         if draw(st.integers(0, 3)) == 0:
             return ['delay', draw(st.sampled_from(DELAYS))]
+        if named and draw(st.integers(0, 2)) == 0:
+            return ['named', draw(st.integers(0, len(named) - 1))]
         if connectives and draw(st.booleans()):
             a, b = atom(), atom()
             if a[0] == 'time_eq' or b[0] == 'time_eq':
@@ -222,6 +266,14 @@ def programs(draw, tier, connectives=False):
                 out.append(blk)
         return out
 
+    if connectives or draw(st.integers(0, 3)) == 0:
+        for _ in range(draw(st.integers(1, 2))):
+            a, b = atom(), atom()
+            while a[0] == 'done' or (a[0] == 'not' and a[1][0] == 'done'):
+                a = atom()
+            while b[0] == 'done' or (b[0] == 'not' and b[1][0] == 'done'):
+                b = atom()
+            named.append([draw(st.sampled_from(['and', 'or'])), a, b] if connectives else a)
     hd = {'name': 'hd', 'steps': [{'op': 'sleep', 'd': draw(st.sampled_from([0.3125, 0.8125, 1.5625, 2.0625, 3.3125]))}]}
     mains = [{'name': name(), 'steps': steps(0, 6 if big else 5)} for _ in range(draw(st.integers(1, 4 if big else 3)))]
     r0 = {'name': 'r0', 'steps': [{'op': 'scope', 'children': [hd] + mains, 'body': []}]}
@@ -236,7 +288,8 @@ def programs(draw, tier, connectives=False):
             else:
                 ctl_steps.append({'op': 'tset', 'i': draw(st.integers(0, ntr - 1)), 'v': draw(st.integers(0, 3))})
     ctl = {'name': 'ctl', 'steps': ctl_steps}
-    prog = {'start': 0, 'objs': {'flags': nflags, 'tracked': [draw(st.integers(0, 3)) for _ in range(ntr)]},
+    prog = {'start': 0, 'objs': {'flags': nflags, 'tracked': [draw(st.integers(0, 3)) for _ in range(ntr)],
+                                 'conds': named},
             'roots': [ctl, r0]}
     if draw(st.integers(0, 3)) == 0:
         prog['till'] = draw(st.sampled_from([0, 0.5, 1, 2, 3, 4.625, 6, 20]))
@@ -267,7 +320,7 @@ class C07(Check):
     def strategy(self, tier):
         main = programs(tier, connectives=False)
         side = programs(tier, connectives=True)
-        return st.one_of(main, main, main, main, main, main, main, side)
+        return st.one_of(main, main, main, main, main, main, side, reuse_programs())
 
     def run_case(self, prog, tier='quick'):
         out = Outcome()
